@@ -85,4 +85,17 @@ CLAIMS = {
                  "fixing gap/pad); at sequence level decides the position-wise in-place loop shape and the to_mask/to_unmask defaults.",
         "note": TRUST + "bitvec load_le/store on 5-bit chunks straddling words trusted.",
     },
+    "C01": {
+        "technique": "codec table agreement (exhaustive) + parser/display pipeline normal forms over the resolved impl set",
+        "level": "Decides that every text/byte entry point reduces to one strict per-byte parser (try_from_ascii(b).ok_or(UnrecognisedBase(b)) over the same bytes in order, "
+                 "payload = the byte itself), that collecting is one push per item and push appends exactly BITS Lsb0 bits, that display is map(to_char) over the symbol iterator, "
+                 "and (exhaustively) that each codec's ASCII table accepts exactly its documented alphabet and inverts to_char.",
+        "note": TRUST + "collect::<Result<..>> short-circuit order and bitvec append order across word boundaries are std/bitvec rows.",
+    },
+    "C19": {
+        "technique": "conversion tables by constant propagation (exhaustive) + map/collect normal form + affine rows and closure normal forms for trim_u8",
+        "level": "Complete at symbol level (Dna->Iupac/text keep the letter; text->Dna Ok exactly on A,C,G,T over all 256 bytes); decides the length/order-preserving shape of the three "
+                 "sequence conversions and the exact start/end/parse structure of trim_u8 with the parser's own acceptance predicate.",
+        "note": TRUST + "std position/rposition/map/collect semantics trusted.",
+    },
 }
